@@ -10,7 +10,7 @@ Producer: harness/legacy_common.py.
   scenario net N NAGENTS M a1 b1 … aM bM                                            reset (NetworkGrid)
 
 grid ops (agents are 0..NAGENTS-1; `:` introduces the script of raw random draws)
-  place a x y (any ints: Python indexing, no wrapping) | remove a | move a x y | swap a b | mte a : r… |
+  place a x y (any ints: Python indexing, no wrapping) | remove a | move a x y | swap a b | mte a [R<k>] : r… (R<k>: empties set reordered) |
   mto a random|closest|other none|warning|error K x1 y1 … xK yK : r…
   empties | exists | isempty x y (any ints: Python indexing) | mask | agents | iter | get x y | dump
   geti x (grid[x]) | getl K x1 y1 … (grid[(x1,y1),…]) | gets IX IY (grid[ix, iy]; IX/IY = I<int> or S<start>/<stop>/<step>, _ = None)
@@ -206,6 +206,12 @@ def gridLine (g : Grid) (hex : Bool) (nag : Nat) (nc : NCache) (hc : HCache) (ls
     match a.toNat?, nats? rest with
     | some a, some s => if okA a then upd (g.moveToEmpty a s) else bad
     | _, _ => bad
+  | "mte" :: a :: rot :: ":" :: rest =>
+    -- `mte a R<k>`: the implementation's empties set iterates in another order; the pick does not depend on it
+    -- (C01_legacy_move_to_empty_pick_order_independent, C01_legacy_move_to_empty_is_the_model)
+    match a.toNat?, (if rot.startsWith "R" then (rot.drop 1).toString.toNat? else none), nats? rest with
+    | some a, some _, some s => if okA a then upd (g.moveToEmpty a s) else bad
+    | _, _, _ => bad
   | "mto" :: a :: sel :: he :: k :: rest =>
     match a.toNat?, he? he, k.toNat?, splitScript rest with
     | some a, some he, some k, some (cs, sc) =>
